@@ -11,6 +11,8 @@
     browse <k:fl,k:fl|->               walk returns fl for key k         -> <k=len.hash,…|-> ; <state>
     peek                               Count, then BrowseAll (walk returns 0)  -> <n> <k=len.hash,…|-> ; <state>
     count                                                                -> <n>
+    crashat <name:size,…|->            the process died inside the last state-changing request: continue (closed) on
+                                       the first crash directory of that request with this listing   -> ok <n> | none
     crash                              for the last state-changing request: the directory after every
                                        prefix of its effects, reopened (non-volatile, load, default opts)
                                                                          -> <tag>=<recovered>;<tag>=<recovered>;…
@@ -159,6 +161,16 @@ def step (s : S) (toks : List String) : S × String :=
     | some db => (s, s!"{count db}")
     | none => bad
   | ["crash"] => (s, crashStr s)
+  | ["crashat", listing] =>
+    -- the process dies inside the last state-changing request: continue on the first crash directory
+    -- (Model.Qdb.crashDir) whose listing (names and sizes) is `listing`; "-" = empty directory
+    let want := if listing == "-" then "" else listing
+    let cands := (List.range (s.lastEffs.length + 1)).filterMap fun n =>
+      let fs := s.fsBefore.applyAll ((s.lastEffs.take n).map (·.2))
+      if fileList fs == want then some (n, fs) else none
+    match cands with
+    | (n, fs) :: _ => ({ s with db := none, fs := fs, fsBefore := fs, lastEffs := [] }, s!"ok {n}")
+    | [] => (s, "none")
   | _ => bad
 
 def main : IO Unit := Proto.serve ({} : S) step
